@@ -740,12 +740,54 @@ func (ex *Exec) strSlice(st *State, fr *Frame, x *ssa.Slice, sv *StrV) {
 	}
 	lo, hasLo, ok1 := get(x.Low)
 	hi, hasHi, ok2 := get(x.High)
+	fromEnd := -1
+	if ok1 && !ok2 && x.High != nil {
+		// s[lo : len(s)-k]: the bound is the (possibly symbolic) length minus a constant
+		hiT, isT := ex.eval(st, fr, x.High).(*smt.Term)
+		if isT {
+			lenT := ex.strLen(sv)
+			for k := 0; k <= 16; k++ {
+				if ex.st.Sub(lenT, ex.st.BV(uint64(k), 64)) == hiT {
+					fromEnd = k
+					break
+				}
+			}
+		}
+		if fromEnd >= 0 {
+			ok2, hasHi = true, false
+		}
+	}
 	if !ok1 || !ok2 {
 		panic(unsupported("string slice with symbolic bounds at " + site(x)))
 	}
 	var bad []*smt.Term
 	var alts []StrAlt
 	for _, a := range sv.Alts {
+		if fromEnd >= 0 {
+			// drop fromEnd bytes from the end (they must lie in a trailing literal)
+			ps := append([]Piece(nil), a.P...)
+			n := len(ps)
+			if fromEnd == 0 {
+				// nothing to drop
+			} else if n == 0 || !ps[n-1].isLit() || len(ps[n-1].Lit) < fromEnd {
+				tot, isLit := a.lit()
+				if isLit && len(tot) < fromEnd {
+					bad = append(bad, ex.guard(a.G))
+					continue
+				}
+				panic(unsupported("slice from the end of rope " + piecesString(a.P)))
+			} else {
+				ps[n-1] = Piece{Lit: ps[n-1].Lit[:len(ps[n-1].Lit)-fromEnd]}
+			}
+			if hasLo && lo > 0 {
+				if len(ps) == 0 || !ps[0].isLit() || len(ps[0].Lit) < lo {
+					panic(unsupported("slice of rope " + piecesString(a.P)))
+				}
+				ps[0] = Piece{Lit: ps[0].Lit[lo:]}
+			}
+			alts = append(alts, StrAlt{G: a.G, P: ps})
+			continue
+		}
 		l, ok := a.lit()
 		if !ok {
 			// rope: allow slicing off a literal prefix
